@@ -2,23 +2,25 @@
 (***************************************************************************)
 (* Bounded instance of Testscript and case generator (binding A).          *)
 (*                                                                         *)
-(* The initial archive, the path universe, the configurations (profiles)   *)
+(* The initial archives, the path universe, the configurations (profiles)  *)
 (* and the line vocabulary: every documented command, plain and negated,   *)
 (* with two or three argument choices that hit its success, its unmet      *)
 (* demand and its error paths; conditions crossed with a few commands.     *)
 (* TLC explores the interpreter's state graph to DepthOf lines (VIEW hides *)
-(* the history, so every abstract state is reached through its shortest    *)
-(* script), checks the laws of Testscript in every state and emits one     *)
-(* script per transition with the predicted verdict, reported line, tree   *)
-(* and probe observations.  The first EMIT record is the header (the       *)
-(* vocabulary itself, so that scripts are sequences of indexes).           *)
+(* the history but not the script length: one representative script per    *)
+(* abstract state and length), checks the laws of Testscript in every      *)
+(* state and emits one script per transition with the predicted verdict,   *)
+(* reported line, tree and probe observations.  The first EMIT record is   *)
+(* the header (the vocabulary itself, so that scripts are sequences of     *)
+(* indexes).  Slice {"flow"} selects the lines that move data through the  *)
+(* hidden script state; they are explored one line deeper.                 *)
 (***************************************************************************)
 EXTENDS Testscript
 
 CONSTANTS
   DepthMain,   \* script length explored under the full profile
   DepthAux,    \* ... under the other profiles
-  Slice        \* subset of {"fg", "bg"}: vocabulary slices switched on
+  Slice        \* vocabulary slices switched on: subset of {"fg", "bg"}, or {"flow"}
 
 MCNames == {"a", "b", "d", "e", "l"}
 MCVars == {"V"}
@@ -39,24 +41,34 @@ MCStr ==
        [] w = "t" -> <<116>>]
 MCBadPats == {"("}
 
-\* initial archive:  a = "hello\n"   b = ">$V\n"   d/a = "x\n"
+\* initial archives
+\*   1:  a = "hello\n"       b = ">$V\n"      d/a = "x\n"
+\*   2:  a = ">hi\n>>x\n"    b = "hi\n>x\n"   e/b = "l\r\nhello\n"; no d
 MCInitFS ==
-  [p \in Dom |->
-     CASE p = <<"a">> -> File(<<104, 101, 108, 108, 111, 10>>, TRUE)
-       [] p = <<"b">> -> File(<<62, 36, 86, 10>>, TRUE)
-       [] p = <<"d">> -> Dir(TRUE)
-       [] p = <<"d", "a">> -> File(<<120, 10>>, TRUE)
-       [] OTHER -> None]
+  << [p \in Dom |->
+        CASE p = <<"a">> -> File(<<104, 101, 108, 108, 111, 10>>, TRUE)
+          [] p = <<"b">> -> File(<<62, 36, 86, 10>>, TRUE)
+          [] p = <<"d">> -> Dir(TRUE)
+          [] p = <<"d", "a">> -> File(<<120, 10>>, TRUE)
+          [] OTHER -> None],
+     [p \in Dom |->
+        CASE p = <<"a">> -> File(<<62, 104, 105, 10, 62, 62, 120, 10>>, TRUE)
+          [] p = <<"b">> -> File(<<104, 105, 10, 62, 120, 10>>, TRUE)
+          [] p = <<"e">> -> Dir(TRUE)
+          [] p = <<"e", "b">> -> File(<<108, 13, 10, 104, 101, 108, 108, 111, 10>>, TRUE)
+          [] OTHER -> None] >>
 
 \* configurations.  "full": every custom command and condition, commands of Main usable bare.
 \* "strict": RequireExplicitExec + RequireUniqueNames, no Condition function, only probe.
 \* "dup" / "dupstrict": the archive names the file a twice (the later entry wins / setup fails).
+\* "second": the full profile on the second archive.
 MCProfiles ==
-  [n \in {"full", "strict", "dup", "dupstrict"} |->
-     CASE n = "full" -> [explicit |-> FALSE, hascond |-> TRUE, cmds |-> {"probe", "cfail", "cout"}, unique |-> FALSE, dup |-> FALSE]
-       [] n = "strict" -> [explicit |-> TRUE, hascond |-> FALSE, cmds |-> {"probe"}, unique |-> TRUE, dup |-> FALSE]
-       [] n = "dup" -> [explicit |-> FALSE, hascond |-> TRUE, cmds |-> {"probe", "cfail", "cout"}, unique |-> FALSE, dup |-> TRUE]
-       [] n = "dupstrict" -> [explicit |-> TRUE, hascond |-> FALSE, cmds |-> {"probe"}, unique |-> TRUE, dup |-> TRUE]]
+  [n \in {"full", "strict", "dup", "dupstrict", "second"} |->
+     CASE n = "full" -> [explicit |-> FALSE, hascond |-> TRUE, cmds |-> {"probe", "cfail", "cout"}, unique |-> FALSE, dup |-> FALSE, arch |-> 1]
+       [] n = "strict" -> [explicit |-> TRUE, hascond |-> FALSE, cmds |-> {"probe"}, unique |-> TRUE, dup |-> FALSE, arch |-> 1]
+       [] n = "dup" -> [explicit |-> FALSE, hascond |-> TRUE, cmds |-> {"probe", "cfail", "cout"}, unique |-> FALSE, dup |-> TRUE, arch |-> 1]
+       [] n = "dupstrict" -> [explicit |-> TRUE, hascond |-> FALSE, cmds |-> {"probe"}, unique |-> TRUE, dup |-> TRUE, arch |-> 1]
+       [] n = "second" -> [explicit |-> FALSE, hascond |-> TRUE, cmds |-> {"probe", "cfail", "cout"}, unique |-> FALSE, dup |-> FALSE, arch |-> 2]]
 MCRoots == {[coe |-> c, prof |-> n] : c \in BOOLEAN, n \in DOMAIN MCProfiles}
 MCDepthOf == [n \in DOMAIN MCProfiles |-> IF n = "full" THEN DepthMain ELSE DepthAux]
 
@@ -126,6 +138,7 @@ FgLines == <<
   \* unquote / unix2dos
   Ln("unquote", <<B>>), Ln("unquote", <<A>>), Ln("unquote", <<>>), Ln("unquote", <<NX>>), Not(Ln("unquote", <<B>>)),
   Ln("unix2dos", <<A>>), Ln("unix2dos", <<>>), Ln("unix2dos", <<NX>>), Not(Ln("unix2dos", <<A>>)), Ln("unix2dos", <<B, A>>),
+  Ln("unix2dos", <<Rel(<<"e", "b">>)>>), Ln("grep", <<Cnt(1), Lit("hello"), Rel(<<"e", "b">>)>>),
   \* custom commands, unknown commands, lone prefixes
   Ln("probe", <<>>), Not(Ln("probe", <<>>)), Ln("cfail", <<>>), Not(Ln("cfail", <<>>)), Ln("cout", <<>>),
   Ln("nosuchcmd", <<>>), Not(Ln("nosuchcmd", <<A>>)), Not(Ln("", <<>>)),
@@ -161,8 +174,25 @@ BgLines == <<
 FgOnly == << Ln("wait", <<>>), Ln("wait", <<Lit("n1")>>), Not(Ln("wait", <<>>)), Ln("kill", <<>>), Ln("kill", <<Lit("-FOO")>>),
              Ln("kill", <<Lit("n1")>>), Not(Ln("kill", <<>>)) >>
 
-MCLineSeq == (IF "fg" \in Slice THEN FgLines ELSE <<>>)
-             \o (IF "bg" \in Slice THEN BgLines ELSE FgOnly)
+\* the lines that move data through the hidden script state (stdin, stdout / stderr buffers, env, cd,
+\* background list): explored one line deeper than the full vocabulary, because what they change
+\* only shows two lines later
+FlowLines == <<
+  Ln("stdin", <<A>>), Ln("stdin", <<Lit("stdout")>>), Ln("exec", <<Lit("hcat")>>), Ln("hcat", <<>>),
+  Ln("exec", <<Lit("hecho"), Lit("hi")>>), Ln("exec", <<Lit("hfail")>>), Not(Ln("exec", <<Lit("hfail")>>)),
+  Ln("exec", <<Lit("nosuchprog")>>), Not(Ln("exec", <<Lit("nosuchprog")>>)), Ln("exec", <<Lit("hgetenv"), Lit("V")>>),
+  Ln("exec", <<Lit("htouch"), E>>), Ln("env", <<KV("V", <<104, 101, 108, 108, 111>>)>>), Ln("cd", <<D>>), Ln("cd", <<NX>>),
+  Ln("cp", <<Lit("stdout"), B>>), Ln("cp", <<Lit("stderr"), B>>), Ln("cmp", <<Lit("stdout"), A>>), Ln("cmpenv", <<A, B>>),
+  Ln("unquote", <<B>>), Ln("stdout", <<Lit("hi")>>), Not(Ln("stdout", <<Lit("hello")>>)), Ln("stderr", <<Lit("se")>>),
+  Ln("cout", <<>>), Ln("cfail", <<>>), Ln("rm", <<A>>),
+  Ln("exec", <<Lit("hecho"), Lit("hi"), Lit("&")>>), Not(Ln("exec", <<Lit("hfail"), Lit("&")>>)), Ln("exec", <<Lit("hfail"), Lit("&n1&")>>),
+  Ln("exec", <<Lit("hblock"), Lit("&")>>), Not(Ln("exec", <<Lit("hblock"), Lit("&n1&")>>)),
+  Ln("wait", <<>>), Ln("wait", <<Lit("n1")>>), Ln("kill", <<>>), Ln("kill", <<Lit("-INT"), Lit("n1")>>),
+  Ln("skip", <<>>), Ln("stop", <<>>)
+>>
+
+MCLineSeq == IF "flow" \in Slice THEN FlowLines
+             ELSE (IF "fg" \in Slice THEN FgLines ELSE <<>>) \o (IF "bg" \in Slice THEN BgLines ELSE FgOnly)
 
 \* at most two background commands at a time (bound of the model, not of the language)
 MCNext == \E i \in 1..Len(LineSeq) :
@@ -171,12 +201,12 @@ MCNext == \E i \in 1..Len(LineSeq) :
              /\ Step(i)
 
 \* the literal match counts of the specification on sample texts: the driver compares them with Go's regexp
-SampleTexts == {InitFS[p].c : p \in {q \in Universe : InitFS[q].k = "file"}}
+SampleTexts == UNION {{InitFS[k][p].c : p \in {q \in Universe : InitFS[k][q].k = "file"}} : k \in DOMAIN InitFS}
                \cup {Str[w] \o <<LF>> : w \in {"hi", "so", "se", "hello"}}
-               \cup {Unix2Dos(InitFS[<<"a">>].c), InitFS[<<"a">>].c \o InitFS[<<"a">>].c, <<>>}
+               \cup {Unix2Dos(InitFS[1][<<"a">>].c), InitFS[1][<<"a">>].c \o InitFS[1][<<"a">>].c, <<>>}
 MatchTab == {[pat |-> w, text |-> t, n |-> Count(Str[w], t)] : w \in (DOMAIN Str) \ BadPats, t \in SampleTexts}
 Header == PrintT(<<"EMIT", ToJson([header |-> TRUE, vocab |-> LineSeq, profiles |-> Profiles,
-                                    init |-> TreeOf(InitFS), str |-> Str, badpats |-> BadPats, matchtab |-> MatchTab])>>)
+                                    init |-> [k \in DOMAIN InitFS |-> TreeOf(InitFS[k])], str |-> Str, badpats |-> BadPats, matchtab |-> MatchTab])>>)
 MCInit == Init /\ (root = (CHOOSE r \in Roots : TRUE) => Header)
 MCSpec == MCInit /\ [][MCNext]_vars
 =============================================================================
